@@ -284,9 +284,72 @@ def run(S, tier, rep):
         round_trip(S, rep, dim, dim, "dim")
         rejection(S, rep, dim)
     derived_classes(S, rep)
+    eulerian_convenience_class(S, rep)
     rep.require_min("C17.a", 20)
+    rep.require_min("C17.g", 12)
     rep.require_min("C17.b", 30)
     rep.require_min("C17.d", 16)
+
+
+def eulerian_convenience_class(S, rep):
+    """EulerianFieldIO derives the grid parameters that `load` validates from the coordinate field: they must describe the
+    grid in the array's own axis order (z, y, x), otherwise a file of a shifted / different grid is accepted (or a matching one
+    refused by a plain IO registered with the true parameters)"""
+    import re
+    I = S.I
+    mod = S.module(IOMOD)
+    I.skip_functions = {"generate_xdmf_eulerian", "generate_xdmf_lagrangian"}
+    cls = mod.vars.get("EulerianFieldIO")
+    if cls is None:
+        raise Unsupported("anchor vanished: EulerianFieldIO")
+    for dim in (2, 3):
+        lab = "EulerianFieldIO %dD" % dim
+        shape = tuple(S.grid_shape(dim))
+        pos = sym_array(S, "position", (dim,) + shape)
+        pos.alloc.valfn = None          # coordinates are data of the caller: only reductions over named components are tracked
+        es = sym_array(S, "es_conv%d" % dim, shape)
+        try:
+            io = I.call(cls, [], dict(position_field=pos, eulerian_fields_dict={"es": es}), None, mod)
+        except RaisedInAnalysed as ex:
+            rep.ob("C17.g", lab + " construction", False, "constructor raises %s" % ex, key="C17.g|%d|ctor" % dim)
+            continue
+        got = {}
+        for k in ("eulerian_origin", "eulerian_dx", "eulerian_grid_size"):
+            v = io.attrs.get(k)
+            vf = arr_valfn(v) if isinstance(v, Arr) else None
+            got[k] = [vf((const(i),)) for i in range(dim)] if vf is not None else None
+        # origin: component k (array axis k) is the minimum of coordinate dim-1-k
+        for k in range(dim):
+            coord = dim - 1 - k
+            g = got["eulerian_origin"][k] if got["eulerian_origin"] else None
+            m = re.fullmatch(r"amin\(position\[(\d+),[:,]*\]\)", repr(g)) if g is not None else None
+            ok = m is not None and int(m.group(1)) == coord
+            rep.ob("C17.g", "%s origin of array axis %d is the least %s coordinate" % (lab, k, "xyz"[coord]), ok,
+                   "origin[%d] = %r, documented amin(position[%d])" % (k, g, coord), key="C17.g|%d|origin|%d|%r" % (dim, k, g),
+                   sample={"class": "EulerianFieldIO", "dim": dim, "axis": k, "origin": repr(g)})
+            gs = got["eulerian_grid_size"][k] if got["eulerian_grid_size"] else None
+            rep.ob("C17.g", "%s grid size of array axis %d" % (lab, k), gs is not None and to_pw(gs) == to_pw(shape[k]),
+                   "grid_size[%d] = %r, array extent %r" % (k, gs, shape[k]), key="C17.g|%d|size|%d|%r" % (dim, k, gs), nontrivial=False)
+        # spacing: one value for every axis, the difference of two consecutive x coordinates
+        dxs = got["eulerian_dx"]
+        ok = dxs is not None and all(d == dxs[0] for d in dxs)
+        src = None
+        if ok:
+            names = sorted(a[1] for a in to_pw(dxs[0]).all_atoms() if a[0] == "s")
+            for al_name in {n.split("[")[0] for n in names}:
+                # the flattened array the two elements are read from must be the x component of the coordinate field
+                for op in I.trace:
+                    if op.kind == "ElemRead" and op.arr.alloc.label == al_name:
+                        der, root = getattr(op.arr.alloc, "derivation", None), op.arr
+                        while der is not None and der[0] in ("reshape", "copy", "astype"):
+                            root = der[1][0]
+                            der = getattr(root.alloc, "derivation", None)
+                        src = root
+            fixed = [simplify_scalar(a[1]) for a in src.axes if a[0] == "i"] if isinstance(src, Arr) else None
+            ok = isinstance(src, Arr) and src.alloc.id == pos.alloc.id and fixed == [0] and \
+                to_pw(dxs[0]) == sym("%s[1]" % names[0].split("[")[0]) - sym("%s[0]" % names[0].split("[")[0])
+        rep.ob("C17.g", lab + " spacing", bool(ok), "dx = %r read from %s" % (dxs, getattr(src, "describe", lambda: src)()),
+               key="C17.g|%d|dx|%r" % (dim, dxs), nontrivial=False)
 
 
 def derived_classes(S, rep):
